@@ -3178,3 +3178,39 @@ def spec_env_read(fns, consts):
 
 
 SPECS["C06"].append(spec_env_read)
+
+
+# ------------------------------------------------------------------ C06: a conditional default is triggered only by an argument that was really used
+
+def spec_conditional_default_explicit(fns, consts):
+    """Parser::add_default_value, one pass of the loop over `default_value_if` entries and every return
+    path: a conditional default is handed to react only if the argument the condition names was
+    EXPLICITLY present (command line or environment) - `MatchedArg::check_explicit(<that argument's
+    matches>, &IsPresent)` holds on the path.  A value the other argument only has by its own default
+    must not count as "used" (it would also make the result depend on definition order, because
+    defaults are applied in that order)."""
+    con = contracts.Contracts(fns, default_pure=True)
+    ctx = symex.Ctx(consts, con)
+    fn = _find(fns, "parser/parser.rs", "add_default_value")
+    ex = symex.Exec(ctx, fn, [("opq", "self"), ("opq", "arg"), ("opq", "matcher")])
+    ex.run(havoc_unassigned=True, cut_loops=True)
+    paths = [(pc, ca) for (pc, _), ca in zip(ex.returns, ex.return_callargs)] + [(pc, env.get("#callargs", ())) for pc, env in ex.cuts]
+    obs, n = [], 0
+    for pc, ca in paths:
+        gets = [c for c in ca if c[0] == "ArgMatcher::get"]
+        reacts = [c for c in ca if c[0].endswith("::react")]
+        if not gets or not reacts:
+            continue
+        n += 1
+        other = gets[-1][2] + "@Some.0"
+        chk = [c for c in ca if c[0] == "MatchedArg::check_explicit" and c[1][0] == other and c[1][1].startswith("const:")]
+        sym = ctx.keys.get(chk[0][2]) if chk else None
+        obs.append({"fn": fn.name, "block": "call", "kind": "spec", "target": "conditional_default_explicit",
+                    "msg": "a conditional default is applied only when the argument its condition names is explicitly present (not merely defaulted)" + ("" if sym else " - its explicit-ness is never consulted"),
+                    "pc": list(pc), "neg": f"(not {sym})" if sym else "true"})
+    if n == 0:
+        obs.append({"fn": fn.name, "block": "shape", "kind": "spec", "target": "conditional_default_explicit", "msg": "add_default_value: no path applies a conditional default", "pc": [], "neg": "true"})
+    return ctx, obs, [_enc(fn, ex, len(paths))], con
+
+
+SPECS["C06"].append(spec_conditional_default_explicit)
